@@ -1,6 +1,6 @@
 (* C13 — second layer of proofs (stretch round): the handle a writer was given
    is the handle a reader returns; the classification of key material by type
-   URL for all 39 transcribed key types; the encrypted keyset (right key: the handle comes
+   URL for all 41 transcribed key types; the encrypted keyset (right key: the handle comes
    back; wrong key or AD: reduction to the AEAD opening the ciphertext). *)
 From Coq Require Import String Ascii List Arith NArith Bool Lia ZifyN ZifyNat ZifyBool.
 From Tink Require Import Bytes UntrustedConsts Untrusted UntrustedSpec UntrustedProofs Secrets SecretsProofs SecretsWireProofs.
@@ -180,7 +180,7 @@ Proof.
 Qed.
 
 (* The material type and prefix type of every entry are those registered for
-   its type URL (for the 39 transcribed key types; the label it came with for
+   its type URL (for the 41 transcribed key types; the label it came with for
    any other URL): has_secrets-relevant classification by type URL. *)
 Theorem out_material_by_url ks h : handle_from_proto (Some ks) = Ok h ->
   Forall (fun e => out_material e = url_material (eurl e) (emat e)
@@ -302,12 +302,12 @@ Definition symmetric_urls : list bytes :=
    u_chacha; u_xchacha; u_xaes_gcm; u_stream_gcm_hkdf; u_stream_ctr_hmac; u_jwt_hmac].
 Definition private_urls : list bytes :=
   [u_ecdsa_priv; u_ed25519_priv; u_rsa_pkcs1_priv; u_rsa_pss_priv; u_ecies_priv; u_hpke_priv; u_jwt_ecdsa_priv;
-   u_jwt_rsa_pkcs1_priv; u_jwt_rsa_pss_priv; u_slhdsa_priv; u_mldsa_priv; u_jwt_mldsa_priv].
+   u_jwt_rsa_pkcs1_priv; u_jwt_rsa_pss_priv; u_slhdsa_priv; u_mldsa_priv; u_jwt_mldsa_priv; u_composite_priv].
 Definition public_urls : list bytes :=
   [u_ecdsa_pub; u_rsa_pkcs1_pub; u_rsa_pss_pub; u_ed25519_pub; u_ecies_pub; u_hpke_pub; u_jwt_ecdsa_pub;
-   u_jwt_rsa_pkcs1_pub; u_jwt_rsa_pss_pub; u_jwt_mldsa_pub; u_mldsa_pub; u_slhdsa_pub].
+   u_jwt_rsa_pkcs1_pub; u_jwt_rsa_pss_pub; u_jwt_mldsa_pub; u_mldsa_pub; u_slhdsa_pub; u_composite_pub].
 
-(* 15 + 12 + 12 = the 39 transcribed key types; every other URL keeps its label *)
+(* 15 + 13 + 13 = the 41 transcribed key types; every other URL keeps its label *)
 Theorem url_material_table :
   Forall (fun u => forall label, url_material u label = km_symmetric) symmetric_urls
   /\ Forall (fun u => forall label, url_material u label = km_private) private_urls
@@ -362,15 +362,29 @@ Ltac labk :=
   | |- match ?o with Some _ => _ | None => _ end = Ok _ -> _ => destruct o
   end.
 
-Lemma parse_key_label kd p i d : parse_key L kd p i = Ok d ->
+Lemma parse_key_base_label kd p i d : parse_key_base L kd p i = Ok d ->
+  url_is kd u_composite_pub = false -> url_is kd u_composite_priv = false ->
   label_checked (url_tag (kd_url kd)) = true -> kd_mat kd = material_of_tag (url_tag (kd_url kd)) (kd_mat kd).
 Proof.
-  unfold Untrusted.parse_key, parse_key_more, parse_ed25519_pub, parse_ed25519_priv, parse_rsa_priv,
+  intros H C1 C2. revert H.
+  unfold Untrusted.parse_key_base, parse_key_more, parse_ed25519_pub, parse_ed25519_priv, parse_rsa_priv,
     parse_ecies_pub, parse_ecies_priv, parse_hpke_pub, parse_hpke_priv,
     parse_stream_gcm_hkdf, parse_stream_ctr_hmac, parse_jwt_hmac, parse_jwt_ecdsa_pub, parse_jwt_ecdsa_priv,
     parse_jwt_rsa_pub, parse_mldsa_pub, parse_slhdsa_pub, parse_slhdsa_priv,
     parse_jwt_rsa_priv, parse_jwt_mldsa_pub, parse_mldsa_priv, parse_jwt_mldsa_priv, ed25519_from_seed.
   cbv zeta. labk.
+Qed.
+
+Lemma parse_key_label kd p i d : parse_key L kd p i = Ok d ->
+  label_checked (url_tag (kd_url kd)) = true -> kd_mat kd = material_of_tag (url_tag (kd_url kd)) (kd_mat kd).
+Proof.
+  unfold Untrusted.parse_key. destruct (url_is kd u_composite_pub) eqn:C1.
+  - intros H _. apply parse_composite_kind in H. destruct H as (M & _). rewrite M.
+    unfold url_is in C1. apply beq_eq in C1. rewrite C1. vm_compute. reflexivity.
+  - destruct (url_is kd u_composite_priv) eqn:C2.
+    + intros H _. apply parse_composite_kind in H. destruct H as (M & _). rewrite M.
+      unfold url_is in C2. apply beq_eq in C2. rewrite C2. vm_compute. reflexivity.
+    + intros H. eapply parse_key_base_label; eassumption.
 Qed.
 
 (* an accepted key of a label-checking type carries the material label of its type *)
@@ -409,7 +423,7 @@ Proof.
       [exact P | | | | |]; destruct P; discriminate.
 Qed.
 
-(* THE no-secrets import theorem, all 39 transcribed key types and the
+(* THE no-secrets import theorem, all 41 transcribed key types and the
    fallback key (/repo b141c20; before it the five parsers that ignore the
    label let mislabelled symmetric keys in): on a keyset the cleartext
    construction accepts as h, NewHandleWithNoSecrets returns h iff every key
@@ -583,3 +597,51 @@ Proof.
 Qed.
 
 End Encrypted2.
+
+(* ------------------------------------------------------------------ *)
+(* REFUTED (finding, reported; the model transcribes the code as it is): a
+   composite ML-DSA PUBLIC key can hold a classical PRIVATE key.
+   compositemldsa.NewPublicKey only compares classicalKey.Parameters() with
+   the expected parameters, which the private key of the same parameters
+   satisfies; parseClassicalPublicKey parses the nested key data with the
+   parser of its own type URL.  Every label is ASYMMETRIC_PUBLIC, the
+   serializer writes ASYMMETRIC_PUBLIC: the no-secrets import accepts the
+   keyset and WriteWithNoSecrets writes the handle - private seed included
+   (it is part of the key value, which the writer emits).               *)
+(* ------------------------------------------------------------------ *)
+Definition cw_std : stdlib :=
+  mkStd (fun _ _ => false) (fun _ _ => None) (fun seed => seed) (fun _ _ => None) (fun _ _ => [])
+        (fun _ _ _ _ _ => None) (fun _ _ _ _ _ _ _ _ => false) (fun _ _ => []).
+Definition cw_seed : bytes := repeat 94 32%nat.
+Definition cw_mldsa_pub_value : bytes := enc_bytes_field 2 (repeat 7 1952%nat) ++ enc_len_field 3 [8; 1].
+Definition cw_ed25519_priv_value : bytes := enc_bytes_field 2 cw_seed ++ enc_len_field 3 (enc_bytes_field 2 cw_seed).
+Definition cw_composite_value : bytes :=
+  enc_len_field 2 (ser_keydata (mkKD u_mldsa_pub cw_mldsa_pub_value km_public))
+  ++ enc_len_field 3 (ser_keydata (mkKD u_ed25519_priv cw_ed25519_priv_value km_private))
+  ++ enc_len_field 4 [8; 1; 16; 1].
+Definition cw_keyset : keyset :=
+  mkKS 9 [Some (mkPK (Some (mkKD u_composite_pub cw_composite_value km_public)) st_enabled 9 pt_tink)].
+Definition cw_handle : handle :=
+  Eval vm_compute in match handle_from_proto cw_std (Some cw_keyset) with Ok h => h | _ => [] end.
+
+Fixpoint is_infix (needle hay : bytes) : bool :=
+  match hay with
+  | [] => match needle with [] => true | _ => false end
+  | _ :: t => beq (firstn (length needle) hay) needle || is_infix needle t
+  end.
+
+Theorem public_composite_key_can_hold_a_private_key_refuted :
+  exists e,
+    cw_handle = [e]
+    /\ has_secrets cw_keyset = false
+    /\ handle_no_secrets cw_std (Some cw_keyset) = Ok cw_handle
+    /\ ekey e = PComposite false true [] (Some cw_seed)
+    /\ out_material e = km_public
+    /\ write_no_secrets cw_handle = Ok (ser_keyset (proto_of_handle cw_handle))
+    /\ is_infix cw_seed (ser_keyset (proto_of_handle cw_handle)) = true
+    /\ prim_ok cw_std (ekey e) = Ok false.
+Proof.
+  eexists. split; [reflexivity|].
+  split; [vm_compute; reflexivity|]. split; [vm_compute; reflexivity|]. split; [vm_compute; reflexivity|].
+  split; [vm_compute; reflexivity|]. split; [vm_compute; reflexivity|]. split; vm_compute; reflexivity.
+Qed.
